@@ -3,6 +3,7 @@ package checks
 import (
 	"fmt"
 	"strings"
+	"sync"
 
 	"mvdan.cc/sh/v3/syntax"
 
@@ -40,7 +41,14 @@ func c12(c *vc.Ctx) {
 		"the documented intentional differences (repository tables: flipConfirm entries of syntax/parser_test.go) are named predicates in c12_class.go; cases matching one are counted (intentional_*) and not compared",
 	}
 	c.Reruns = 1
-	vc.AtExit = c12Cleanup
+	vc.AtExit = func() {
+		c12MismatchMu.Lock()
+		if len(c12Mismatches) > 0 {
+			c.Extra["wrapper_mismatch_examples"] = c12Mismatches
+		}
+		c12MismatchMu.Unlock()
+		c12Cleanup()
+	}
 	sh := map[string]c12Shell{"bash": {"bash", c12ScratchDir()}, "posix": {"dash", c12ScratchDir()}}
 	c.Extra["base_programs"] = len(progs)
 
@@ -202,6 +210,7 @@ func c12Judge(c *vc.Ctx, sh c12Shell, lang string, batch []c12Case, idx []int, f
 		// validation 1: every in-process accept, by the real shell on the concatenation
 		np := 0
 		for _, k := range sh.rejectedAmong(srcs, acc, &np) {
+			c12NoteMismatch(lang, srcs[k], true)
 			c.Count("wrapper_accept_but_real_rejects_"+lang, 1)
 			accept[k], confirmed[k] = false, true
 		}
@@ -241,6 +250,7 @@ func c12Judge(c *vc.Ctx, sh c12Shell, lang string, batch []c12Case, idx []int, f
 				c.Count("wrapper_rejects_validated_on_stride_"+lang, 1)
 			}
 			if accept[k] != was {
+				c12NoteMismatch(lang, srcs[k], was)
 				if was {
 					c.Count("wrapper_accept_but_real_rejects_"+lang, 1)
 				} else {
@@ -283,6 +293,22 @@ func c12Judge(c *vc.Ctx, sh c12Shell, lang string, batch []c12Case, idx []int, f
 			Detail: map[string]any{"src": srcs[k], "lang": lang, "parser_error": perr[k], "shell": sh.name, "shell_accepts": accept[k], "confirmed_by_own_shell_process": confirmed[k]},
 		}
 	}
+}
+
+var (
+	c12MismatchMu sync.Mutex
+	c12Mismatches []string
+)
+
+// c12NoteMismatch records (for the evidence) a case where the in-process
+// verdict differed from the real `<shell> -n` process; the real verdict is
+// the one that is used.
+func c12NoteMismatch(lang, src string, wrapperAccepted bool) {
+	c12MismatchMu.Lock()
+	if len(c12Mismatches) < 40 {
+		c12Mismatches = append(c12Mismatches, fmt.Sprintf("%s wrapper_accepts=%v %q", lang, wrapperAccepted, src))
+	}
+	c12MismatchMu.Unlock()
 }
 
 func orStr(s, d string) string {
